@@ -171,7 +171,7 @@ func (w *MarkdownWriter) writeQuote(para *document.Paragraph) error {
 		return nil
 	}
 
-	lines := strings.Split(text, "\n")
+	lines := strings.Split(escapeBlockStart(text), "\n")
 	for _, line := range lines {
 		w.output.WriteString("> " + line + "\n")
 	}
@@ -213,7 +213,7 @@ func (w *MarkdownWriter) writeListItem(para *document.Paragraph) error {
 		marker = "1."
 	}
 
-	w.output.WriteString(marker + " " + text + "\n")
+	w.output.WriteString(marker + " " + escapeBlockStart(text) + "\n")
 	w.inList = true
 
 	return nil
@@ -240,7 +240,7 @@ func (w *MarkdownWriter) writeNormalParagraph(para *document.Paragraph) error {
 		text = w.wrapText(text, w.opts.MaxLineLength)
 	}
 
-	w.output.WriteString(text + "\n\n")
+	w.output.WriteString(escapeBlockStart(text) + "\n\n")
 
 	return nil
 }
@@ -359,6 +359,27 @@ func (w *MarkdownWriter) formatRunText(run *document.Run) string {
 		return ""
 	}
 
+	// 代码样式的文本是字面内容：不转义，用足够长的反引号包围
+	if run.Properties != nil && w.isCodeStyle(run.Properties) {
+		code := codeSpan(text)
+		if run.Properties.Bold != nil {
+			if run.Properties.Italic != nil {
+				code = "***" + code + "***"
+			} else {
+				code = "**" + code + "**"
+			}
+		} else if run.Properties.Italic != nil {
+			code = w.opts.EmphasisMarker + code + w.opts.EmphasisMarker
+		}
+		if run.Properties.Strike != nil {
+			code = "~~" + code + "~~"
+		}
+		return code
+	}
+
+	// 文本中的Markdown元字符按字面输出
+	text = escapeMarkdownText(text)
+
 	// 检查格式属性
 	if run.Properties != nil {
 		// 检查粗体
@@ -377,13 +398,68 @@ func (w *MarkdownWriter) formatRunText(run *document.Run) string {
 			text = "~~" + text + "~~" // 删除线
 		}
 
-		// 处理代码样式
-		if w.isCodeStyle(run.Properties) {
-			text = "`" + text + "`"
-		}
 	}
 
 	return text
+}
+
+// escapeMarkdownText 给文本中会被解析为Markdown语法的字符加反斜杠，使文本按字面导出
+func escapeMarkdownText(text string) string {
+	if !strings.ContainsAny(text, "\\`*_[]<~&") {
+		return text
+	}
+	var b strings.Builder
+	for _, r := range text {
+		switch r {
+		case '\\', '`', '*', '_', '[', ']', '<', '~', '&':
+			b.WriteByte('\\')
+		}
+		b.WriteRune(r)
+	}
+	return b.String()
+}
+
+// blockStartPattern 匹配会被解析为块级语法的行首：ATX标题、引用、列表标记、有序列表编号、分隔线/Setext下划线
+var blockStartPattern = regexp.MustCompile(`^( {0,3})(#{1,6}([ \t]|$)|[-+>]([ \t]|$)|[0-9]{1,9}[.)]([ \t]|$)|(-[ \t]*){3,}$|=+[ \t]*$)`)
+
+// escapeBlockStart 转义段落各行行首的块级标记，使以 "# "、"1. "、"- "、"> " 等开头的文本仍是普通文本
+func escapeBlockStart(text string) string {
+	lines := strings.Split(text, "\n")
+	for i, line := range lines {
+		loc := blockStartPattern.FindStringSubmatchIndex(line)
+		if loc == nil {
+			continue
+		}
+		at := loc[3] // 标记的起始位置（缩进之后）
+		if c := line[at]; c >= '0' && c <= '9' {
+			// 有序列表编号：转义数字后的 . 或 )
+			for at < len(line) && line[at] >= '0' && line[at] <= '9' {
+				at++
+			}
+		}
+		lines[i] = line[:at] + "\\" + line[at:]
+	}
+	return strings.Join(lines, "\n")
+}
+
+// codeSpan 用比内容中最长的反引号串更长的反引号包围代码文本
+func codeSpan(text string) string {
+	longest, run := 0, 0
+	for _, r := range text {
+		if r == '`' {
+			run++
+			if run > longest {
+				longest = run
+			}
+		} else {
+			run = 0
+		}
+	}
+	fence := strings.Repeat("`", longest+1)
+	if strings.HasPrefix(text, "`") || strings.HasSuffix(text, "`") {
+		return fence + " " + text + " " + fence
+	}
+	return fence + text + fence
 }
 
 // extractCellText 提取单元格文本
@@ -403,6 +479,8 @@ func (w *MarkdownWriter) extractCellText(cell *document.TableCell) string {
 	text := result.String()
 	text = strings.ReplaceAll(text, "\n", " ")
 	text = strings.TrimSpace(text)
+	// 单元格内的竖线会被解析为列分隔符
+	text = strings.ReplaceAll(text, "|", "\\|")
 
 	return text
 }
